@@ -107,7 +107,7 @@ JsFrames == << <<"", "">>, <<"class C {", "}">>, <<"x = {", "}">>, <<"async func
 TsFrames == << <<"", "">>, <<"class C {", "}">>, <<"let x: ", ";">>, <<"function f<", ">() {}">>,
                <<"declare namespace N {", "}">>, <<"enum E {", "}">> >>
 JsxFrames == << <<"", "">>, <<"x = <div ", "/>">>, <<"x = <div>", "</div>">>, <<"x = <", ">">> >>
-CssFrames == << <<"", "">>, <<"a {", "}">>, <<"a { b: ", "}">>, <<"@media ", "{}">>, <<":is(", ") {}">> >>
+CssFrames == << <<"", "">>, <<"a {", "}">>, <<"a { background:", "}">>, <<"@media ", "{}">>, <<":is(", ") {}">> >>
 JsonFrames == << <<"", "">>, <<"[", "]">>, <<"{\"a\":", "}">> >>
 CfgFrames == << <<"", "">>, <<"{", "}">>, <<"{\"exports\":{", "}}">>, <<"{\"imports\":{", "}}">>,
                 <<"{\"compilerOptions\":{", "}}">>, <<"{\"compilerOptions\":{\"paths\":{", "}}}">>, <<"{\"browser\":{", "}}">>,
